@@ -1,23 +1,226 @@
-"""C24 -- HTTP client request serialisation: bounded (h11 as the independent parser)."""
-from contracts._parts import bounded, EXPLORATION_NOTE
+"""C24 -- HTTP client requests serialize to exactly the intended message.
 
-CONTRACTS = []
+Deductive, on the two objects that frame the request body:
+
+  LengthEnforcingConsumer (Content-Length framing), for an arbitrary number of bytes still allowed and an arbitrary write:
+      a write that fits is forwarded unchanged, exactly once, and the allowance shrinks by exactly its length (so the
+      bytes forwarded never exceed, and on success equal, the declared length); a write that does not fit is not
+      forwarded at all: the producer is stopped, the request fails with WrongBodyLength and every later write is refused
+      (ExcessWrite, producer stopped again, nothing forwarded); _noMoreWritesExpected raises WrongBodyLength exactly
+      when bytes are still missing.
+  ChunkedEncoder (chunked framing), for an arbitrary write: a non-empty write becomes exactly one chunk
+      `hex(len) CRLF data CRLF` (the hex spelling is the one C22's decoder contract reads back), an empty write emits
+      nothing (it would be the last-chunk marker), unregisterProducer emits exactly the last chunk and an empty trailer
+      and closes the encoder; writes after that are refused.
+Bounded (contracts/parts/C24_bounded.py): whole requests against h11 (request line, headers, refusal of invalid
+methods and targets, producers).
+"""
+import z3
+
+from pyvc.api import *
+from pyvc import core, models
+from contracts._parts import bounded
+from twisted.internet.defer import Deferred
+from twisted.web import _newclient
+from twisted.web._newclient import ChunkedEncoder, ExcessWrite, LengthEnforcingConsumer, WrongBodyLength
+
+M = "twisted.web._newclient"
+
+
+def ev(S, name):
+    return [e for e in S.trace if e.name == name]
+
+
+def rec(name):
+    def h(I, obj, *a, **kw):
+        ctx().emit(name, obj, a, kw)
+    return h
+
+
+class _Consumer(Contract):
+    prop = "C24"
+    module = M
+    differential = False
+
+    def bounded_inputs(self, tier):
+        return iter(())
+
+
+class LengthWrite(_Consumer):
+    function = "LengthEnforcingConsumer.write"
+    calls = {"consumer.write": rec("consumer.write"), "producer.stopProducing": rec("producer.stopProducing"),
+             "finished.errback": rec("finished.errback"), "Failure": "native"}
+    inputs = dict(remaining=Int(0, None), data=Bytes(alphabet=b"a", small_len=2), open=ForkBool())
+    trusted = ["the underlying consumer, the producer and the request's Deferred are recorded call-outs",
+               "_ignoreStopProducerWrite swallows what the producer's stopProducing raises (its own few lines; bounded tier)"]
+
+    def setup(self, i):
+        fin = self.opaque("finished") if i.open else None
+        c = self.make(LengthEnforcingConsumer, _length=i.remaining, _producer=self.opaque("producer"),
+                      _consumer=self.opaque("consumer"), _finished=fin)
+        return dict(self=c, args=[i.data], objs=dict(c=c), ghost=dict(fin=fin))
+
+    raises = {ExcessWrite: lambda S: not S.i.open}
+
+    def _step(S):
+        i = S.i
+        w, stop, eb = ev(S, "consumer.write"), ev(S, "producer.stopProducing"), ev(S, "finished.errback")
+        if not i.open:
+            # closed (after an overrun or after the body was declared complete): nothing is forwarded any more
+            return band(len(w) == 0, len(stop) == 1, len(eb) == 0, veq(S.new.c._length, i.remaining), S.new.c._finished is None)
+        fits = L(i.data) <= i.remaining
+        if len(w) == 1:
+            return band(fits, len(stop) == 0, len(eb) == 0, veq(w[0].args[0], i.data), veq(S.new.c._length, i.remaining - L(i.data)),
+                        S.new.c._finished is S.ghost["fin"])
+        return band(bnot(fits), len(w) == 0, len(stop) == 1, len(eb) == 1,
+                    isinstance(getattr(eb[0].args[0], "value", eb[0].args[0]), WrongBodyLength) if eb else False,
+                    S.new.c._finished is None)
+
+    ensures = dict(forwarded_unchanged_within_the_declared_length_or_not_at_all=_step)
+    canaries = [("if len(bytes) <= self._length:", "if len(bytes) <= self._length + 1:", "forwarded_unchanged_within_the_declared_length_or_not_at_all"),
+                ("self._length -= len(bytes)", "self._length -= 1", "forwarded_unchanged_within_the_declared_length_or_not_at_all")]
+
+
+class LengthDone(_Consumer):
+    function = "LengthEnforcingConsumer._noMoreWritesExpected"
+    inputs = dict(remaining=Int(0, None), open=ForkBool())
+
+    def setup(self, i):
+        fin = self.opaque("finished") if i.open else None
+        c = self.make(LengthEnforcingConsumer, _length=i.remaining, _producer=self.opaque("producer"),
+                      _consumer=self.opaque("consumer"), _finished=fin)
+        return dict(self=c, args=[], objs=dict(c=c))
+
+    raises = {WrongBodyLength: lambda S: band(S.i.open, S.i.remaining > 0)}
+    ensures = dict(closed_afterwards=lambda S: band(S.new.c._finished is None, len(S.trace) == 0))
+    canaries = [("if self._length:", "if self._length > 1:", "raises/WrongBodyLength-exactly-when")]
+
+
+class ChunkWrite(_Consumer):
+    function = "ChunkedEncoder.write"
+    calls = {"transport.writeSequence": rec("transport.writeSequence")}
+    inputs = dict(data=Bytes(alphabet=b"a\r\n0", small_len=2), open=ForkBool())
+    trusted = ["the transport is a recorded call-out; writeSequence(parts) writes the concatenation of the parts"]
+
+    def setup(self, i):
+        enc = self.make(ChunkedEncoder, transport=self.opaque("transport") if i.open else None)
+        return dict(self=enc, args=[i.data], objs=dict(e=enc))
+
+    raises = {ExcessWrite: lambda S: not S.i.open}
+
+    def _chunk(S):
+        if S.exc is not None:
+            return len(S.trace) == 0
+        ws = ev(S, "transport.writeSequence")
+        n = L(S.i.data)
+        if len(ws) == 0:
+            return n == 0
+        if len(ws) != 1 or len(S.trace) != 1:
+            return False
+        parts = list(ws[0].args[0])
+        wire = parts[0]
+        for p in parts[1:]:
+            wire = wire + p
+        size = core.SSeq(models.hexenc()(core.num_term(n)), "bytes")
+        return band(n > 0, veq(wire, size + b"\r\n" + S.i.data + b"\r\n"))
+
+    ensures = dict(one_chunk_with_the_hex_size_or_nothing_for_an_empty_write=_chunk)
+    canaries = [("if not data:", "if False:", "one_chunk_with_the_hex_size_or_nothing_for_an_empty_write"),
+                ("(networkString(\"%x\\r\\n\" % len(data)), data, b\"\\r\\n\")", "(networkString(\"%d\\r\\n\" % len(data)), data, b\"\\r\\n\")",
+                 "one_chunk_with_the_hex_size_or_nothing_for_an_empty_write")]
+
+
+class ChunkDone(_Consumer):
+    function = "ChunkedEncoder.unregisterProducer"
+    calls = {"transport.writeSequence": rec("transport.writeSequence"), "transport.unregisterProducer": rec("transport.unregisterProducer")}
+    inputs = dict(open=ForkBool())
+
+    def setup(self, i):
+        enc = self.make(ChunkedEncoder, transport=self.opaque("transport") if i.open else None)
+        return dict(self=enc, args=[], objs=dict(e=enc))
+
+    raises = {ExcessWrite: lambda S: not S.i.open}
+
+    def _last(S):
+        if S.exc is not None:
+            return len(S.trace) == 0
+        ws, un = ev(S, "transport.writeSequence"), ev(S, "transport.unregisterProducer")
+        if len(ws) != 1 or len(un) != 1 or len(S.trace) != 2 or S.trace[0] is not ws[0]:
+            return False
+        return band(b"".join(ws[0].args[0]) == b"0\r\n\r\n", S.new.e.transport is None)
+
+    ensures = dict(last_chunk_once_then_closed=_last)
+    canaries = [("self._allowNoMoreWrites()", "pass", "last_chunk_once_then_closed")]
+
+
+def visible_ascii(b):
+    q = z3.Int("c24!q")
+    t = core.seq_term(b, "bytes")
+    return band(L(b) > 0, core.mk_bool(z3.ForAll([q], z3.Implies(z3.And(q >= 0, q < z3.Length(t)), z3.And(t[q] >= 0x21, t[q] <= 0x7e)))))
+
+
+def valid_uri_match(I, arg, *rest):
+    r"""_VALID_URI.match for the pattern rb"\A[\x21-\x7e]+\Z": one or more bytes, each of them visible ASCII"""
+    if _newclient._VALID_URI.pattern != rb"\A[\x21-\x7e]+\Z":
+        raise Unsupported("_VALID_URI is no longer the pattern this model was written for: %r" % (_newclient._VALID_URI.pattern,))
+    c = ctx()
+    c.emit("match", None, (arg,))
+    return True if I.truth(visible_ascii(arg)) else None
+
+
+class EnsureValidURI(_Consumer):
+    """the request target that is written is the very value that passed the test (seeded change C24-2 tested a stripped copy)"""
+    function = "_ensureValidURI"
+    calls = {"Pattern.match": valid_uri_match}
+    inputs = dict(uri=Bytes(alphabet=b"a \r\n\x7f", small_len=2))
+    trusted = [r"the compiled pattern rb'\A[\x21-\x7e]+\Z' means: at least one byte, every byte in 0x21..0x7e (the model refuses "
+               "to run if the pattern's text changes)"]
+
+    def setup(self, i):
+        return dict(fn=_newclient._ensureValidURI, args=[i.uri])
+
+    raises = {ValueError: lambda S: bnot(visible_ascii(S.i.uri))}
+    ensures = dict(returns_the_value_it_tested=lambda S: None if S.exc else band(veq(S.result, S.i.uri), visible_ascii(S.result)))
+    canaries = [("if _VALID_URI.match(uri):", "if _VALID_URI.match(uri.strip()):", "raises/ValueError-exactly-when")]
+
+
+from contracts.C19 import all_tchars, istoken_summary  # noqa: E402  (the _istoken predicate proved there)
+
+
+class EnsureValidMethod(_Consumer):
+    function = "_ensureValidMethod"
+    summaries = {"_istoken": istoken_summary}
+    inputs = dict(method=Bytes(alphabet=b"G \r:", small_len=2))
+    trusted = ["_istoken(b) <=> b is non-empty and every byte is an RFC 9110 tchar (proved as C19's IsToken contract)"]
+
+    def setup(self, i):
+        return dict(fn=_newclient._ensureValidMethod, args=[i.method])
+
+    raises = {ValueError: lambda S: bnot(band(L(S.i.method) > 0, all_tchars(S.i.method)))}
+    ensures = dict(returns_the_value_it_tested=lambda S: None if S.exc else veq(S.result, S.i.method))
+    canaries = [("if _istoken(method):", "if _istoken(method.strip()):", "raises/ValueError-exactly-when")]
+
+
+CONTRACTS = [LengthWrite, LengthDone, ChunkWrite, ChunkDone, EnsureValidURI, EnsureValidMethod]
 # AgentTargetDerivation (URL -> request-target in client.URI) is outside the property's statement (the target is
 # given) and outside its anchors; it is not claimed here (see DESIGN.md, observations).
 BOUNDED = [k for k in bounded("C24") if k.__name__ != "AgentTargetDerivation"]
-NOTES = dict(
-    explanation="Request.writeTo / HTTP11ClientProtocol.request / Agent.request against h11 and RFC 9110/9112 byte "
-                "classes: refusal before any write for invalid method/target, exact round trip otherwise, body framing "
-                "for every split of the producer's writes.",
-    not_covered=["deductive contracts on _writeHeaders / ChunkedEncoder (planned; the regex-based validators and the "
-                 "producer plumbing are exercised by the bounded tier only)"],
-)
+_SCOPE = ("Request.writeTo / HTTP11ClientProtocol.request / Agent.request against h11 and RFC 9110/9112 byte classes: every 1-byte "
+          "and short hostile method/target (each of 256 bytes inserted at start/middle/end) must be refused with nothing written, "
+          "the full product of methods x targets x header sets x bodies must round-trip exactly, body write sequences (including "
+          "empty writes and terminator look-alikes) must be framed correctly for every sync/async split")
+NOTES = dict(explanation="the two body-framing consumers proved write by write; request line, headers, validators and producers bounded: " + _SCOPE,
+             not_covered=["Request._writeHeaders (request line, Host, header lines), _ensureValidMethod / _ensureValidURI (regular "
+                          "expressions), the producer plumbing of _writeToBodyProducer*: bounded tier only"])
 MANIFEST = dict(
-    category="exploration",
-    text="Bounded stand-in with an independent parser (h11): every 1-byte and short hostile method/target (each of "
-         "256 bytes inserted at start/middle/end) must be refused with nothing written, the full product of "
-         "methods x targets x header sets x bodies must round-trip exactly, body write sequences (including empty "
-         "writes and terminator look-alikes) must be framed correctly for every sync/async split.",
-    note=EXPLORATION_NOTE,
-    technique="bounded exhaustive evaluation of an executable contract on the real code with h11 as independent parser (stand-in; not proved)",
+    category="proof",
+    text="LengthEnforcingConsumer.write is proved, for any remaining allowance and any write, to forward a write that fits "
+         "unchanged, once, and to reduce the allowance by exactly its length, and otherwise to forward nothing, stop the "
+         "producer, fail the request with WrongBodyLength and refuse every later write; _noMoreWritesExpected raises "
+         "WrongBodyLength exactly when bytes are missing: the body written under a Content-Length is never longer, and on "
+         "success exactly as long, as declared.  ChunkedEncoder.write is proved to emit exactly `hex(len) CRLF data CRLF` for "
+         "a non-empty write and nothing for an empty one, unregisterProducer exactly `0 CRLF CRLF`, once, after which the "
+         "encoder is closed.  Request line, headers, validators and producers are exercised in the bounded tier only: " + _SCOPE + ".",
+    note="Trusted: pyvc, SMT solvers, transport / producer / Deferred as recorded call-outs.  Everything else: bounded, never counted as proved.",
+    technique="contract-based deductive verification (symbolic execution, linear integer and sequence VCs, call-out traces) + bounded exhaustive requests against h11",
 )
